@@ -76,11 +76,15 @@ def step (line : String) : String :=
     | _, _ => "bad-op"
   | ["oarr", i, j, vs] =>
     match pairF i j, parseFs vs with
-    | some (a, b), some vs => "ok " ++ showFs (convertArray vs a b)
+    | some (a, b), some vs => match convertArray vs a b with
+      | .ok r => "ok " ++ showFs r
+      | .error e => showErr e
     | _, _ => "bad-op"
   | ["oinp", i, j, vs] =>
     match pairF i j, parseFs vs with
-    | some (a, b), some vs => "ok " ++ showFs (convertArrayInplace vs a b)
+    | some (a, b), some vs => match convertArrayInplace vs a b with
+      | .ok r => "ok " ++ showFs r ++ " after " ++ showFs (arrayAfterInplace vs a b)
+      | .error e => showErr e ++ " after " ++ showFs (arrayAfterInplace vs a b)
     | _, _ => "bad-op"
   | ["oq", i, j, v] =>
     match pairQ i j, parseQ v with
@@ -90,7 +94,10 @@ def step (line : String) : String :=
     | _, _ => "bad-op"
   | ["oqarr", i, j, vs] =>
     match pairQ i j, parseQs vs with
-    | some (a, b), some vs => "ok " ++ showQs (convertArray vs a b) ++ " " ++ showQs (convertArrayInplace vs a b)
+    | some (a, b), some vs => match convertArray vs a b, convertArrayInplace vs a b with
+      | .ok r, .ok r' => "ok " ++ showQs r ++ " " ++ showQs r'
+      | .error e, _ => showErr e
+      | _, .error e => showErr e
     | _, _ => "bad-op"
   | ["lcount"] => s!"{TD.Gen.C17Lis.unitCount} {lisFlat.size} {TD.Gen.C17Lis.cats.length}"
   | ["lrow", i] =>
